@@ -277,18 +277,33 @@ def check(ctx):
            "checked %d functions outside the builder API" % len([f for f in an.fns() if not is_builder(an, f)]), nontrivial=False)
     # to_tree works on a copy
     to_tree = model.method("Config", "to_tree")
-    copied = False
-    for x in ast.walk(to_tree.node):
-        if isinstance(x, (ast.Assign, ast.AnnAssign)) and isinstance(x.value, (ast.Dict, ast.DictComp)) and any(
-                isinstance(y, ast.Attribute) and y.attr == "_fields" for y in ast.walk(x.value)):
-            copied = True   # {**schema_fields, **own_fields}: a new mapping
-        if isinstance(x, (ast.Assign, ast.AnnAssign)) and isinstance(x.value, ast.Call) and any(
-                isinstance(y, ast.Attribute) and y.attr == "_fields" for y in ast.walk(x.value)):
-            nodes = an.cfg(to_tree).nodes_for(x.value)
-            if nodes and all(an.returns_fresh(t) for t in an.targets(to_tree, nodes[0])):
-                copied = True
-    ctx.ob("schema-fields.copied-before-merge", to_tree, "fields = dict(self._schema._fields)", copied,
-           "to_tree merges dynamic fields into a copy" if copied else "to_tree no longer copies the schema's field table before merging", nontrivial=False)
+    # nothing in to_tree mutates a mapping that may be the schema's own field table: a receiver of update / setdefault / pop /
+    # item assignment that is `<...>._schema._fields` itself or a local bound to it without a copy
+    gt = an.cfg(to_tree)
+
+    def schema_table(e, node, depth=0):
+        if isinstance(e, ast.Attribute) and e.attr == "_fields":
+            return any(isinstance(y, ast.Attribute) and y.attr == "_schema" for y in ast.walk(e.value)) or \
+                (isinstance(e.value, ast.Name) and e.value.id != to_tree.self_name)
+        if isinstance(e, ast.Name) and depth < 4:
+            return any(k == "expr" and isinstance(pl, ast.AST) and not isinstance(pl, ast.Name) and schema_table(pl, None, depth + 1)
+                       for k, pl in value_sources(to_tree, e, node))
+        return False
+    bad_mut = None
+    for n in gt.nodes:
+        x = n.ast
+        if n.kind == "call" and isinstance(x, ast.Call) and isinstance(x.func, ast.Attribute) and x.func.attr in ("update", "setdefault", "pop", "popitem", "clear", "__setitem__") \
+                and schema_table(x.func.value, n):
+            bad_mut = n
+        if n.kind == "assign" and isinstance(x, (ast.Assign, ast.AugAssign)):
+            tgts = x.targets if isinstance(x, ast.Assign) else [x.target]
+            if any(isinstance(t, ast.Subscript) and schema_table(t.value, n) for t in tgts) or \
+                    (isinstance(x, ast.AugAssign) and isinstance(x.op, ast.BitOr) and schema_table(x.target, n)):
+                bad_mut = n
+    ctx.ob("schema-fields.copied-before-merge", to_tree, "no mutation of the schema's field table while rendering", bad_mut is None,
+           "to_tree merges dynamic fields into a copy, the schema's table is only read" if bad_mut is None else
+           "to_tree mutates the schema's own field table (line %s): dynamic fields of one configuration leak into the shared schema" % bad_mut.lineno,
+           node=bad_mut, nontrivial=False)
 
     # ---------------------------------------------------------------- C13.4
     guarded = {"_validators", "validator", "_env_prefix", "_schema", "_dynamic", "env", "_default", "required"}
